@@ -117,6 +117,10 @@ func deepEq(a, b reflect.Value, path string) (bool, string) {
 	return false, fmt.Sprintf("%s: %s vs %s", path, render(a), render(b))
 }
 
+// createdDefault is the status a created entity with Status 0 is expected to come back with
+// (set around the comparison of one call's results).
+var createdDefault = 201
+
 func isCreatedEntity(t reflect.Type) bool {
 	return strings.HasPrefix(t.Name(), "CreatedEntity[")
 }
@@ -129,7 +133,7 @@ func createdEq(sent, got reflect.Value, path string) (bool, string) {
 	}
 	s, g := sent.FieldByName("Status").Int(), got.FieldByName("Status").Int()
 	if s == 0 {
-		s = 201
+		s = int64(createdDefault) // 201, or what the resource set through the request context
 	}
 	if g == 0 {
 		g = 201
